@@ -10,7 +10,7 @@
 From Coq Require Import List String Bool Arith.
 From Helm Require Import Common.Assoc Engine.Types Engine.Eff Engine.Ops Engine.Cluster Engine.Seq
   Engine.SeqProofs Engine.HooksProofsGate Engine.ContainLedger Engine.ContainProofs Engine.ContainDeployed
-  Engine.Contain Engine.ContainRefuted Engine.ContainStore Engine.HooksProofsTrace Engine.ContainReported Engine.ContainCleanup Engine.ContainAtomic Engine.ContainAtomicUp Engine.ContainAtomicReplace.
+  Engine.Contain Engine.ContainRefuted Engine.ContainStore Engine.HooksProofsTrace Engine.ContainReported Engine.ContainCleanup Engine.ContainAtomic Engine.ContainAtomicUp Engine.ContainAtomicReplace Engine.ContainAtomicFull.
 Import ListNotations.
 Local Open Scope string_scope.
 
@@ -195,6 +195,56 @@ Example C03_atomic_install_replace_example :
                = (w', OErr EOtherErr, t) /\ w_led w' = [] /\ w_objs w' = [].
 Proof. exact atomic_install_replace_example. Qed.
 Print Assumptions C03_atomic_install_replace_example.
+
+(* C03_atomic_upgrade — the full clause, under the object-store cluster.  Decidable hypotheses
+   on the case: hooks disabled (this excludes K9; hook faults are then moot); one cluster fault
+   [one_fault cf]: the readiness wait fails, or one request that is not a DELETE is rejected;
+   K6 excluded: the failed target omits no resource of g, the highest stored revision that is
+   superseded or deployed; no history limit; revisions numbered from 1, distinct (C01);
+   manifests with distinct keys / field names.  If the failed upgrade got as far as storing its
+   revision, it ends with a NEW revision (number last+2) that is DEPLOYED, is a copy of g
+   (manifest, hooks, chart, values), and the cluster matches it: every resource of g exists
+   and carries every field g's stamped manifest names (C02_update_matches gives the field-wise
+   reading), and what only the failed target had is gone unless the live object says keep. *)
+Theorem C03_atomic_upgrade :
+  forall rn ns fl cid vid mani hks cf w w' c t last g,
+    f_atomic fl = true -> f_dry_run fl = false -> f_no_hooks fl = true -> f_max_history fl = 0 ->
+    NoDup (revs (w_led w)) -> (forall x, In x (w_led w) -> rev x <> 0) ->
+    max_rev_of (w_led w) = Some last ->
+    max_rev_of (filter (fun r => status_eqb (st r) SSuperseded || status_eqb (st r) SDeployed) (w_led w)) = Some g ->
+    NoDup (map rkey mani) -> NoDup (map rkey (manifest g)) ->
+    (forall r, In r (manifest g) -> NoDup (akeys (r_fields r))) ->
+    (forall r, In r (manifest g) -> in_keys (rkey r) mani = true) ->
+    ((cf_k cf = None /\ cf_wait cf = true) \/ (cf_wait cf = false /\ forall key, cf_k cf <> Some (VDelete, key))) ->
+    run_store_op rn ns (mkOp (OpUpgrade fl cid vid mani hks) ContainLedger.nofault cf) w = (w', OErr c, t) ->
+    (exists y, In y (w_led w') /\ ~ In (rev y) (revs (w_led w))) ->
+    exists y, In y (w_led w') /\ rev y = S (S (rev last)) /\ st y = SDeployed /\
+      manifest y = manifest g /\ hooks y = hooks g /\ chart_id y = chart_id g /\ config_id y = config_id g /\
+      (forall r, In r (manifest g) ->
+         exists live', aget (rkey r) (w_objs w') = Some live' /\
+                       fields_sub (r_fields (stamp rn ns r)) live' = true) /\
+      (forall o, In o mani -> in_keys (rkey o) (manifest g) = false ->
+         aget (rkey o) (w_objs w') = None \/
+         exists live, aget (rkey o) (w_objs w') = Some live /\ live_keep live = true).
+Proof. exact atomic_upgrade. Qed.
+Print Assumptions C03_atomic_upgrade.
+
+(* the hypotheses are met: install {a,b}; upgrade --atomic --no-hooks to {a',b',c} with PATCH b
+   rejected: 1:superseded 2:failed 3:deployed, a and b carry v1 again, c is gone *)
+Example C03_atomic_upgrade_full_example :
+  f_atomic fu_fl = true /\ f_dry_run fu_fl = false /\ f_no_hooks fu_fl = true /\ f_max_history fu_fl = 0 /\
+  NoDup (revs (w_led fu_w1)) /\ (forall x, In x (w_led fu_w1) -> rev x <> 0) /\
+  max_rev_of (w_led fu_w1) = Some fu_g /\
+  max_rev_of (filter (fun r => status_eqb (st r) SSuperseded || status_eqb (st r) SDeployed) (w_led fu_w1)) = Some fu_g /\
+  NoDup (map rkey fu_mani) /\ NoDup (map rkey (manifest fu_g)) /\
+  (forall r, In r (manifest fu_g) -> in_keys (rkey r) fu_mani = true) /\
+  one_fault fu_cf /\
+  exists w' t,
+    run_store_op "rel" "default" (mkOp (OpUpgrade fu_fl 2 2 fu_mani []) ContainLedger.nofault fu_cf) fu_w1 = (w', OErr EOtherErr, t) /\
+    statuses (w_led w') = [(1, SSuperseded); (2, SFailed); (3, SDeployed)] /\
+    map (fun kv => (fst kv, aget "d:k" (snd kv))) (w_objs w') = [("ConfigMap/a", Some "v1"); ("ConfigMap/b", Some "v1")].
+Proof. exact atomic_upgrade_full_example. Qed.
+Print Assumptions C03_atomic_upgrade_full_example.
 
 (* C03_atomic_upgrade_ledger_partial — the LEDGER half of the atomic-upgrade clause, for every
    cluster behaviour (no storage fault, no crash, no history limit, revisions numbered from 1,
